@@ -22,9 +22,10 @@ RULE = ("cases: (a) ill-defined models by construction: self reference, cycles o
         "leaf bounds), leaf vs compound with the same id and different bounds; (b) trees with pairwise distinct ids; (c) sharing "
         "by identity, by equal copy and by equal definition through another class (Any(a,b) next to Xor(a,b)). non-trivial: every "
         "case is; distinct by (class, canonical shape digest)")
-BUDGET = {"quick": (8, 260, 60), "thorough": (16, 4000, 900)}
+BUDGET = {"quick": (12, 500, 90), "thorough": (16, 4000, 1200)}
 ILL = ["self-ref", "cycle", "dup-child", "dup-child-ref-leaf", "generated-id-collision", "compound-value-twin", "leaf-bounds", "leaf-bounds-twin", "compound-sign", "compound-value",
        "compound-children", "compound-children-twin", "leaf-vs-compound"]
+PYTEST = True     # thorough tier also runs the repository's own tests under these monitors
 MANDATORY = ["judged:accepted=>well-defined", "judged:tree=>accepted", "judged:sharing=>accepted", "contract:AtLeast.errors"] + \
             ["count:ill:" + c for c in ILL] + ["count:ill-rejected", "count:class:tree", "count:class:share-identity",
                                                "count:class:share-copy", "count:class:share-other-class"]
